@@ -246,7 +246,13 @@ pub fn run(ctx: &Ctx) -> Report {
 
     let mut rng = Rng::for_case(ctx.seed, 15, 0);
     let nfiles = 24.min(blobs.len());
-    let files: Vec<Vec<u8>> = (0..nfiles).map(|_| blobs[rng.below(blobs.len() as u64) as usize].clone()).collect();
+    let mut pool: Vec<&Vec<u8>> = blobs.iter().collect();
+    if cfg!(miri) {
+        // the smaller half of the loaded files: same decoder paths, less interpreter time per parse
+        pool.sort_by_key(|b| b.len());
+        pool.truncate((pool.len() / 2).max(1));
+    }
+    let files: Vec<Vec<u8>> = (0..nfiles).map(|_| pool[rng.below(pool.len() as u64) as usize].clone()).collect();
     let mut zones: Vec<Arc<TimeZone>> = files.iter().take(8).filter_map(|b| TimeZone::from_tz_data(b).ok()).map(Arc::new).collect();
     let cfg = ZoneCfg::search();
     for _ in 0..6 {
@@ -254,13 +260,17 @@ pub fn run(ctx: &Ctx) -> Report {
             zones.push(Arc::new(z));
         }
     }
-    let leaked: &'static TimeZone = Box::leak(Box::new(TimeZone::from_tz_data(&files[0]).unwrap_or_else(|_| TimeZone::utc())));
+    // a zone with static lifetime (what a program keeping its local zone in a `static` has); held by a static of
+    // the harness so that the leak detectors of Miri / LSan see it as reachable
+    static LEAKED: std::sync::OnceLock<&'static TimeZone> = std::sync::OnceLock::new();
+    let leaked: &'static TimeZone = LEAKED.get_or_init(|| Box::leak(Box::new(TimeZone::from_tz_data(&files[0]).unwrap_or_else(|_| TimeZone::utc()))));
     // TZ values of every shape (descriptions, file names, ':' values, "localtime", empty): all resolution paths are inside the window
     let strings: Vec<String> = IANA_FOOTERS.iter().map(|s| s.to_string()).chain(crate::mon::c20::VALUES.iter().map(|s| s.to_string())).chain(["garbage".to_string(), "EST5EDT".to_string()]).collect();
     let shared = Shared { zones, leaked, files, strings };
 
     let rounds = ctx.n(3, 12);
-    let seq_len = ctx.inner(if ctx.quick() { 4000 } else { 12000 }) as usize;
+    // under the interpreter (~80 ms per call) the sequence length scales linearly with --scale
+    let seq_len = if cfg!(miri) { ((4000.0 * ctx.scale).ceil() as usize).max(20) } else { ctx.inner(if ctx.quick() { 4000 } else { 12000 }) as usize };
     let mut l = Local::default();
     let mut all = Fnv::new();
     mark(true);
